@@ -420,7 +420,7 @@ class C20(RenderProp):
     id = "C20"
     n_quick = 2000
     n_thorough = 30000
-    required_theorems = ["C20_push", "C20_pop", "C20_shift", "C20_unshift", "C20_splice", "C20_slice", "C20_length", "C20_alias_frame", "C20_splice_result_stable"]
+    required_theorems = ["C20_push", "C20_pop", "C20_shift", "C20_unshift", "C20_splice", "C20_slice", "C20_length", "C20_alias_frame", "C20_splice_result_stable", "C20_sequence"]
     rule = ("random call sequences (1-12 quick / 1-40 thorough) of push/pop/shift/unshift/sort/splice(start)/slice(start)/indexOf/index/join/length over up to 5 array "
             "variables with aliasing (var b = a) and kept results (var t = a.splice(k), var c = a.slice(k), var p = s.split(d)), number or string elements, in-range "
             "arguments, plus length/charAt/indexOf/slice/split/toUpperCase/toLowerCase on an ASCII string; every variable's content and length printed after every step. "
@@ -491,7 +491,7 @@ class C07(Prop):
     n_thorough = 8000
     procs_quick = 4
     procs_thorough = 16
-    required_theorems = ["C07_sortKeys_perm", "C07_mapKeys_perm", "C07_explicit_order"]
+    required_theorems = ["C07_sortKeys_perm", "C07_mapKeys_perm", "C07_explicit_order", "C07_render_writes_nothing_shared"]
     rule = ("documents of the C02 / C03 / C05 (spread attributes) / C20 generators plus templates that push to, assign into, sort, splice and pop everything reachable "
             "from the data: each rendered 3x on one engine, on a second engine, and in 4 (quick) / 16 (thorough) fresh processes; render histories (3-10 renders over 2-4 "
             "templates on one engine) compared with standalone renders; the caller's data deep-compared before/after. Non-trivial: every case; distinct by case.")
